@@ -52,6 +52,155 @@ fn hex(b: &[u8]) -> String {
     s
 }
 
+/// the function an instance stands for; a closure coerced to a function pointer shows as the closure itself
+fn instance_name<'tcx>(tcx: TyCtxt<'tcx>, instance: Instance<'tcx>) -> String {
+    if let Some(t) = instance.args.types().next() {
+        if let ty::Closure(d, _) = t.kind() {
+            if tcx.def_path_str(instance.def_id()).ends_with("call_once") {
+                return tcx.def_path_str(*d);
+            }
+        }
+    }
+    tcx.def_path_str(instance.def_id())
+}
+
+/// Structured value of a constant / static initialiser that holds pointers (a dispatch table kept in data): integers, byte
+/// strings, tuples / structs field by field (by the layout rustc computed), arrays element by element, references followed
+/// to plain memory, to a `static` (by name) or to a function (by name).  `null` where it is not understood.
+fn decode_val<'tcx>(tcx: TyCtxt<'tcx>, alloc: &mir::interpret::Allocation, off: usize, ty: Ty<'tcx>, depth: u32, budget: &mut usize) -> String {
+    use rustc_middle::mir::interpret::GlobalAlloc;
+    use rustc_middle::ty::layout::LayoutCx;
+    if depth == 0 || *budget == 0 {
+        return "null".to_string();
+    }
+    *budget -= 1;
+    let tenv = TypingEnv::fully_monomorphized();
+    let layout = match tcx.layout_of(tenv.as_query_input(ty)) {
+        Ok(l) => l,
+        Err(_) => return "null".to_string(),
+    };
+    let size = layout.size.bytes_usize();
+    if off + size > alloc.len() {
+        return "null".to_string();
+    }
+    let has_ptr_in = |lo: usize, hi: usize| alloc.provenance().ptrs().iter().any(|(o, _)| o.bytes_usize() >= lo && o.bytes_usize() < hi);
+    let ptr_at = |o: usize| alloc.provenance().ptrs().iter().find(|(po, _)| po.bytes_usize() == o).map(|(_, pr)| pr.alloc_id());
+    let word = |o: usize| -> usize {
+        let raw = alloc.inspect_with_uninit_and_ptr_outside_interpreter(o..o + 8);
+        let mut b8 = [0u8; 8];
+        b8.copy_from_slice(raw);
+        u64::from_le_bytes(b8) as usize
+    };
+    match ty.kind() {
+        ty::Bool | ty::Int(_) | ty::Uint(_) | ty::Char => {
+            if size == 0 || size > 16 || has_ptr_in(off, off + size) {
+                return "null".to_string();
+            }
+            let raw = alloc.inspect_with_uninit_and_ptr_outside_interpreter(off..off + size);
+            let mut buf = [0u8; 16];
+            buf[..size].copy_from_slice(raw);
+            let mut v = u128::from_le_bytes(buf) as i128;
+            if ty.is_signed() && size < 16 && (v >> (size * 8 - 1)) & 1 == 1 {
+                v -= 1i128 << (size * 8);
+            }
+            format!("{{\"int\":\"{}\"}}", v)
+        }
+        ty::Array(elem, _) => {
+            let n = layout.fields.count();
+            if *elem == tcx.types.u8 {
+                if has_ptr_in(off, off + size) {
+                    return "null".to_string();
+                }
+                return format!("{{\"bytes\":\"{}\"}}", hex(alloc.inspect_with_uninit_and_ptr_outside_interpreter(off..off + size)));
+            }
+            if n > 4096 {
+                return "null".to_string();
+            }
+            let stride = if n > 0 { size / n } else { 0 };
+            let items: Vec<String> = (0..n).map(|i| decode_val(tcx, alloc, off + i * stride, *elem, depth - 1, budget)).collect();
+            format!("{{\"arr\":[{}]}}", items.join(","))
+        }
+        ty::Tuple(_) => {
+            let cx = LayoutCx::new(tcx, tenv);
+            let items: Vec<String> = (0..layout.fields.count())
+                .map(|i| decode_val(tcx, alloc, off + layout.fields.offset(i).bytes_usize(), layout.field(&cx, i).ty, depth - 1, budget))
+                .collect();
+            format!("{{\"tup\":[{}]}}", items.join(","))
+        }
+        ty::Adt(adt, _) if adt.is_struct() => {
+            let cx = LayoutCx::new(tcx, tenv);
+            let names: Vec<String> = adt.non_enum_variant().fields.iter().map(|f| esc(f.name.as_str())).collect();
+            let items: Vec<String> = (0..layout.fields.count())
+                .map(|i| decode_val(tcx, alloc, off + layout.fields.offset(i).bytes_usize(), layout.field(&cx, i).ty, depth - 1, budget))
+                .collect();
+            format!("{{\"adt\":{},\"names\":[{}],\"tup\":[{}]}}", esc(&tcx.def_path_str(adt.did())), names.join(","), items.join(","))
+        }
+        ty::FnPtr(..) => match ptr_at(off).map(|id| tcx.global_alloc(id)) {
+            Some(GlobalAlloc::Function { instance, .. }) => format!("{{\"fn\":{}}}", esc(&instance_name(tcx, instance))),
+            _ => "null".to_string(),
+        },
+        ty::Ref(_, inner, _) | ty::RawPtr(inner, _) => {
+            let id = match ptr_at(off) {
+                Some(i) => i,
+                None => return "null".to_string(),
+            };
+            let toff = word(off);
+            match tcx.global_alloc(id) {
+                GlobalAlloc::Static(d) => format!("{{\"static\":{}}}", esc(&tcx.def_path_str(d))),
+                GlobalAlloc::Function { instance, .. } => format!("{{\"fn\":{}}}", esc(&instance_name(tcx, instance))),
+                GlobalAlloc::Memory(m) => {
+                    let ta = m.inner();
+                    match inner.kind() {
+                        ty::Str => {
+                            let len = word(off + 8);
+                            if toff + len > ta.len() {
+                                return "null".to_string();
+                            }
+                            format!("{{\"bytes\":\"{}\"}}", hex(ta.inspect_with_uninit_and_ptr_outside_interpreter(toff..toff + len)))
+                        }
+                        ty::Slice(e) => {
+                            let len = word(off + 8);
+                            if *e == tcx.types.u8 {
+                                if toff + len > ta.len() {
+                                    return "null".to_string();
+                                }
+                                return format!("{{\"bytes\":\"{}\"}}", hex(ta.inspect_with_uninit_and_ptr_outside_interpreter(toff..toff + len)));
+                            }
+                            let el = match tcx.layout_of(tenv.as_query_input(*e)) {
+                                Ok(l) => l.size.bytes_usize(),
+                                Err(_) => return "null".to_string(),
+                            };
+                            if len > 4096 {
+                                return "null".to_string();
+                            }
+                            let items: Vec<String> = (0..len).map(|i| decode_val(tcx, ta, toff + i * el, *e, depth - 1, budget)).collect();
+                            format!("{{\"arr\":[{}]}}", items.join(","))
+                        }
+                        _ => {
+                            // the pointee's bytes as well, when it is plain data: an anonymous copy of a named constant is
+                            // recognised by its value
+                            let isz = tcx.layout_of(tenv.as_query_input(*inner)).map(|l| l.size.bytes_usize()).unwrap_or(0);
+                            let plain = isz > 0 && isz <= 4096 && toff + isz <= ta.len()
+                                && !ta.provenance().ptrs().iter().any(|(o, _)| o.bytes_usize() >= toff && o.bytes_usize() < toff + isz);
+                            if plain {
+                                format!(
+                                    "{{\"ref\":{},\"raw\":\"{}\"}}",
+                                    decode_val(tcx, ta, toff, *inner, depth - 1, budget),
+                                    hex(ta.inspect_with_uninit_and_ptr_outside_interpreter(toff..toff + isz))
+                                )
+                            } else {
+                                format!("{{\"ref\":{}}}", decode_val(tcx, ta, toff, *inner, depth - 1, budget))
+                            }
+                        }
+                    }
+                }
+                _ => "null".to_string(),
+            }
+        }
+        _ => "null".to_string(),
+    }
+}
+
 struct Cx<'a, 'tcx> {
     tcx: TyCtxt<'tcx>,
     body: &'a mir::Body<'tcx>,
@@ -233,6 +382,9 @@ impl<'a, 'tcx> Cx<'a, 'tcx> {
                 }
             }
         }
+        if let Some(t) = self.const_table(c) {
+            return format!("{{{},\"s\":{},\"ty\":{}}}", t, esc(&format!("{}", c)), self.ty_s(ty));
+        }
         if let Some(b) = self.const_bytes(c) {
             return format!("{{\"bytes\":\"{}\",\"ty\":{}}}", hex(&b), self.ty_s(ty));
         }
@@ -243,6 +395,45 @@ impl<'a, 'tcx> Cx<'a, 'tcx> {
             return format!("{{\"struct\":{},\"ty\":{}}}", st, self.ty_s(ty));
         }
         format!("{{\"s\":{},\"ty\":{}}}", esc(&format!("{}", c)), self.ty_s(ty))
+    }
+
+    /// A reference to a `static` (by name), or a reference to / a value of a table kept in data (array or slice of tuples or
+    /// structs, possibly holding names, function pointers and references to statics), decoded row by row.
+    fn const_table(&self, c: &Const<'tcx>) -> Option<String> {
+        use rustc_middle::mir::interpret::GlobalAlloc;
+        let tcx = self.tcx;
+        let ty = c.ty();
+        let is_rows = |t: Ty<'tcx>| match t.kind() {
+            ty::Array(e, _) | ty::Slice(e) => match e.kind() {
+                ty::Tuple(_) => true,
+                ty::Adt(ad, _) => ad.is_struct(),
+                _ => false,
+            },
+            _ => false,
+        };
+        let val = c.eval(tcx, self.tenv, rustc_span::DUMMY_SP).ok()?;
+        match (ty.kind(), val) {
+            (ty::Ref(_, inner, _), ConstValue::Scalar(mir::interpret::Scalar::Ptr(ptr, _))) => {
+                let (prov, off) = ptr.into_raw_parts();
+                match tcx.global_alloc(prov.alloc_id()) {
+                    GlobalAlloc::Static(d) => Some(format!("\"static\":{}", esc(&tcx.def_path_str(d)))),
+                    GlobalAlloc::Memory(m) if is_rows(*inner) && matches!(inner.kind(), ty::Array(..)) => {
+                        let mut budget = 20000usize;
+                        Some(format!("\"table\":{}", decode_val(tcx, m.inner(), off.bytes_usize(), *inner, 6, &mut budget)))
+                    }
+                    _ => None,
+                }
+            }
+            (_, ConstValue::Indirect { alloc_id, offset }) if is_rows(ty) && matches!(ty.kind(), ty::Array(..)) => {
+                if let GlobalAlloc::Memory(m) = tcx.global_alloc(alloc_id) {
+                    let mut budget = 20000usize;
+                    Some(format!("\"table\":{}", decode_val(tcx, m.inner(), offset.bytes_usize(), ty, 6, &mut budget)))
+                } else {
+                    None
+                }
+            }
+            _ => None,
+        }
     }
 
     /// `&[T; N]` constants of plain data up to 4 KiB (e.g. a promoted `&ENCODING_TABLE`): the raw bytes.
@@ -774,10 +965,25 @@ impl rustc_driver::Callbacks for Cb {
                             None => format!("\"ptrs\":true"),
                         }
                     } else if !a.provenance().ptrs().is_empty() {
-                        format!("\"ptrs\":true")
+                        let mut budget = 20000usize;
+                        format!("\"ptrs\":true,\"val\":{}", decode_val(tcx, a, o0, ty, 6, &mut budget))
                     } else {
                         let bytes = a.inspect_with_uninit_and_ptr_outside_interpreter(offset.bytes_usize()..offset.bytes_usize() + n);
-                        format!("\"raw\":\"{}\"", hex(bytes))
+                        // an array of tuples / structs of plain data is a table too: decode it row by row
+                        let rows = match ty.kind() {
+                            ty::Array(e, _) => match e.kind() {
+                                ty::Tuple(_) => true,
+                                ty::Adt(ad, _) => ad.is_struct(),
+                                _ => false,
+                            },
+                            _ => false,
+                        };
+                        if rows && n <= (1 << 16) {
+                            let mut budget = 20000usize;
+                            format!("\"raw\":\"{}\",\"val\":{}", hex(bytes), decode_val(tcx, a, o0, ty, 6, &mut budget))
+                        } else {
+                            format!("\"raw\":\"{}\"", hex(bytes))
+                        }
                     }
                 }
                 ConstValue::Slice { alloc_id, meta } => {
@@ -798,6 +1004,43 @@ impl rustc_driver::Callbacks for Cb {
             }
             first = false;
             write!(out, "{{\"name\":{},\"ty\":{},\"size\":{},{}}}", esc(&name), esc(&format!("{}", ty)), layout.size.bytes(), desc).unwrap();
+        }
+        out.push_str("],");
+
+        // statics of the crate whose initialiser holds pointers (tables of names, functions, other statics), decoded
+        out.push_str("\"statics\":[");
+        {
+            let mut first = true;
+            for id in tcx.hir_crate_items(()).definitions() {
+                let did = id.to_def_id();
+                if !matches!(tcx.def_kind(did), DefKind::Static { .. }) {
+                    continue;
+                }
+                let ty = tcx.type_of(did).instantiate_identity().skip_norm_wip();
+                let alloc = match tcx.eval_static_initializer(did) {
+                    Ok(a) => a,
+                    Err(_) => continue,
+                };
+                let a = alloc.inner();
+                let rows = match ty.kind() {
+                    ty::Array(e, _) => match e.kind() {
+                        ty::Tuple(_) => true,
+                        ty::Adt(ad, _) => ad.is_struct(),
+                        _ => false,
+                    },
+                    _ => false,
+                };
+                if a.provenance().ptrs().is_empty() && !(rows && a.len() <= (1 << 16)) {
+                    continue;
+                }
+                let mut budget = 20000usize;
+                let v = decode_val(tcx, a, 0, ty, 6, &mut budget);
+                if !first {
+                    out.push(',');
+                }
+                first = false;
+                write!(out, "{{\"name\":{},\"ty\":{},\"val\":{}}}", esc(&tcx.def_path_str(did)), esc(&format!("{}", ty)), v).unwrap();
+            }
         }
         out.push_str("],");
 
